@@ -58,7 +58,7 @@ theorem sorted_split {rp rq : List Rec} {r : Rec} (h : Sorted (rp ++ r :: rq)) :
 theorem getElem?_split {α} {xs pre post : List α} {x : α} (h : xs = pre ++ x :: post) :
     xs[pre.length]? = some x := by simp [h]
 
-theorem drainFrom_eq {segs : List Seg} (wf : WF segs) :
+theorem drainFrom_eq {segs : List Seg} (wf : WFC segs) :
     ∀ (post pre : List Seg) (s : Seg) (k fuel : Nat), segs = pre ++ s :: post →
       post.length + 1 ≤ fuel →
       drainFrom segs pre.length k fuel = s.recs.drop k ++ post.flatMap Seg.recs := by
@@ -90,9 +90,9 @@ theorem drainFrom_eq {segs : List Seg} (wf : WF segs) :
     rw [ih (pre ++ [s]) b 0 f hs' (by simp at hf ⊢; omega)]
     simp
 
-theorem readUncommitted_eq {l : CLog} (h : Inv l) (s : Int) (hs : ∃ r ∈ l.abs, s ≤ r.offset) :
+/-- The uncommitted reader on any well-formed segment list (offset gaps allowed). -/
+theorem readUncommitted_eq_wfc {l : CLog} (wf : WFC l.segs) (s : Int) (hs : ∃ r ∈ l.abs, s ≤ r.offset) :
     l.readUncommitted s = .ok (l.abs.filter (fun r => decide (s ≤ r.offset))) := by
-  have wf := h.wf
   rcases first_seg_split l.segs s with hall | ⟨pre, x, post, hsplit, hx, hpre⟩
   · exfalso
     obtain ⟨r, hr, hsr⟩ := hs
@@ -149,6 +149,10 @@ theorem readUncommitted_eq {l : CLog} (h : Inv l) (s : Int) (hs : ∃ r ∈ l.ab
         simp; omega
       rw [this, List.drop_zero]
 
+theorem readUncommitted_eq {l : CLog} (h : Inv l) (s : Int) (hs : ∃ r ∈ l.abs, s ≤ r.offset) :
+    l.readUncommitted s = .ok (l.abs.filter (fun r => decide (s ≤ r.offset))) :=
+  readUncommitted_eq_wfc h.wfc s hs
+
 theorem readUncommitted_none {l : CLog} (h : Inv l) (s : Int) (hn : l.nextOffset ≤ s) :
     ∃ e, l.readUncommitted s = .err e := by
   have : findSegmentIdx l.segs s = none := by
@@ -168,7 +172,7 @@ theorem drainCommitted_same {segs pre post : List Seg} {hseg : Seg} (hslot k fue
   obtain ⟨f, rfl⟩ : ∃ f, fuel = f + 1 := ⟨fuel - 1, by omega⟩
   simp [drainCommitted, getElem?_split hs]
 
-theorem drainCommitted_eq {segs : List Seg} (wf : WF segs) (hslot : Nat) (hseg : Seg) (post : List Seg) :
+theorem drainCommitted_eq {segs : List Seg} (wf : WFC segs) (hslot : Nat) (hseg : Seg) (post : List Seg) :
     ∀ (mid pre : List Seg) (s : Seg) (k fuel : Nat), segs = pre ++ s :: (mid ++ hseg :: post) →
       mid.length + 2 ≤ fuel →
       drainCommitted segs (pre.length + 1 + mid.length) hslot pre.length k fuel =
@@ -228,10 +232,11 @@ theorem start_slot {x : Seg} (okx : SegOK x) {s : Int} (hx : s < x.nextOffset) :
     have := okx.base_le a (by simpa using ha)
     omega
 
-theorem readCommitted_eq {l : CLog} (h : Inv l) (s : Int)
+/-- The committed reader on any well-formed segment list (offset gaps allowed) whose first
+segment is not empty. -/
+theorem readCommitted_eq_wfc {l : CLog} (wf : WFC l.segs) (holdest : l.oldest ≠ -1) (s : Int)
     (hhw : ∃ r ∈ l.abs, r.offset = l.hw) (hs : s ≤ l.hw) :
     l.readCommitted s = .ok (l.abs.filter (fun r => decide (s ≤ r.offset ∧ r.offset ≤ l.hw))) := by
-  have wf := h.wf
   obtain ⟨r, hr, hrhw⟩ := hhw
   obtain ⟨hseg, hsegmem, hrmem⟩ := List.mem_flatMap.mp hr
   obtain ⟨preh, posth, hsplith⟩ := List.append_of_mem hsegmem
@@ -243,7 +248,6 @@ theorem readCommitted_eq {l : CLog} (h : Inv l) (s : Int)
   have hbh : hseg.base ≤ l.hw := by have := okh.base_le r hrmem; omega
   have hnh : l.hw < hseg.nextOffset := by have := okh.lt_next r hrmem; omega
   have hhwne : l.hw ≠ -1 := by omega
-  have holdest : l.oldest ≠ -1 := oldest_ne h (by intro he; rw [he] at hr; cases hr)
   -- position of the high watermark
   have hfindhw : findSegmentIdx l.segs l.hw = some preh.length := by
     apply findSegmentIdx_of_split wf hsplith hnh
@@ -364,5 +368,12 @@ theorem readCommitted_eq {l : CLog} (h : Inv l) (s : Int)
       exact key
     · rw [if_neg hb]
       exact key
+
+theorem readCommitted_eq {l : CLog} (h : Inv l) (s : Int)
+    (hhw : ∃ r ∈ l.abs, r.offset = l.hw) (hs : s ≤ l.hw) :
+    l.readCommitted s = .ok (l.abs.filter (fun r => decide (s ≤ r.offset ∧ r.offset ≤ l.hw))) := by
+  obtain ⟨r, hr, hrhw⟩ := hhw
+  exact readCommitted_eq_wfc h.wfc (oldest_ne h (by intro he; rw [he] at hr; cases hr)) s
+    ⟨r, hr, hrhw⟩ hs
 
 end Liftbridge.Proofs.Log
